@@ -19,7 +19,8 @@ those knots do not populate is invisible. NOT decided: that generators are q-hom
 arithmetic between the rings (run-time values), the F2 reduced/unreduced relation.
 """
 import re
-from symex import SymEx, show, strip
+from symex import SymEx, show, strip, subterms, find_loops
+from dtree import DTree, Stuck
 
 CGI = 'yui_kh::misc::collect_gen_info'
 RNG = 'yui_kh::misc::range_of'
@@ -28,7 +29,7 @@ GG = 'yui_kh::kh::complex::KhComplex::<R>::gen_grid'
 
 
 def sk(t):
-    return re.sub(r'#\d+\.\d+', '', show(t, -1000))
+    return re.sub(r'#(?:i\d+:)?\d+\.\d+', '', show(t, -1000))
 
 
 def lvs(lv):
@@ -162,53 +163,171 @@ def _g12(facts, rep):
         rep.violation('E23.G2-piece-from-same-key', inst, 'the bigraded piece is assembled as %s' % sorted(x[0][:260] for x in norm - want), where=hb.where())
 
 
+def _ord_atom(env):
+    """atoms of the (min, max) scan: comparisons through PartialOrd / Ord, the accumulator and the scanned item"""
+    def atom(t, ev):
+        if t[0] == 'loopvar':
+            if ('loopvar', t[2]) in env:
+                return (env[('loopvar', t[2])],)
+            raise Stuck('loop variable _%d is not part of the (min, max) state' % t[2])
+        if t[0] == 'field' and t[2] == 'Some.0' and t[1][0] == 'call' and t[1][1].endswith('Iterator::next') and 'item' in env:
+            return (env['item'],)
+        if t[0] == 'discr' and strip(t[1])[0] == 'call' and strip(t[1])[1].endswith('Iterator::next') and 'item' in env:
+            return (1,)
+        if t[0] == 'call' and len(t[2]) == 2:
+            n = t[1].split('::')[-1]
+            if t[1].startswith('std::cmp::') and n in ('lt', 'le', 'gt', 'ge'):
+                x, y = ev(t[2][0]), ev(t[2][1])
+                return (int({'lt': x < y, 'le': x <= y, 'gt': x > y, 'ge': x >= y}[n]),)
+            if t[1].startswith('std::cmp::') and n in ('min', 'max'):
+                x, y = ev(t[2][0]), ev(t[2][1])
+                return (min(x, y) if n == 'min' else max(x, y),)
+            if t[1].startswith('std::cmp::') and n == 'cmp':
+                x, y = ev(t[2][0]), ev(t[2][1])
+                return ({'<variant>': {-1: 255, 0: 0, 1: 1}[(x > y) - (x < y)]},)
+        if t[0] == 'call' and t[1].split('::')[-1] in ('clone', 'deref', 'borrow') and len(t[2]) == 1:
+            return (ev(t[2][0]),)
+        return None
+    return atom
+
+
+GRID3 = [(m, M, x) for m in range(1, 4) for M in range(m, 4) for x in range(0, 5)]
+
+
+def _g3(facts, rep):
+    """range_of = (min, max) of the scanned keys, decided by value: the accumulator step is folded over every
+    relative position of the new key x to a state m <= M (30 points), the first key gives (x, x)"""
+    inst = 'range_of|the scan computes (min, max)'
+    rb = facts.bodies.get(RNG)
+    if rb is None:
+        rep.indet('E23.G3: range_of not found')
+        return
+    rep.saw(rb)
+    dt = DTree(facts)
+    rc = closures_of(facts, RNG)
+    bad = []
+    try:
+        rets = [p for p in SymEx(rb).run() if p.end == 'return']
+        folds = [e for p in rets for e in p.calls() if e.name.endswith('Iterator::fold')]
+        if folds:
+            # ---- fold form: init None, step closure, (lo, hi) = the two components of the result
+            e = folds[0]
+            clo = strip(e.args[2])
+            init = sk(e.args[1])
+            if clo[0] != 'closure' or clo[1] not in facts.bodies or not init.startswith('Option::None'):
+                rep.indet('E23.G3: range_of folds from %s with %s' % (init, sk(e.args[2])[:60]))
+                return
+            cb = facts.bodies[clo[1]]
+            rep.saw(cb)
+            ends = set()
+            for p in rets:
+                r = strip(p.ret)
+                if r[0] == 'call' and r[1].split('::')[-1] == 'new' and len(r[2]) == 2:
+                    comp = []
+                    for x in r[2]:
+                        x = strip(x)
+                        comp.append(x[2] if x[0] == 'field' and any(isinstance(y, tuple) and y and y[0] == 'call' and y[1].endswith('Iterator::fold') for y in subterms(x[1])) else None)
+                    ends.add(tuple(comp))
+                else:
+                    ends.add(None)
+            if ends == {('1', '0')}:
+                rep.violation('E23.G3-support-range', inst, 'range_of returns max ..= min: the support is empty', where=rb.where())
+                return
+            if ends != {('0', '1')}:
+                rep.indet('E23.G3: range_of builds its result as %s' % sorted(map(str, ends)))
+                return
+            v, _ = dt.decide(clo[1], {2: {'<variant>': 0}, 3: 7}, _ord_atom({}))
+            if not (isinstance(v, dict) and v.get('<variant>') in (1, 'Some') and tuple(v.get('0', ())) == (7, 7)):
+                bad.append('the first key x gives %s, expected Some((x, x))' % _pv(v))
+            for (m, M, x) in GRID3:
+                v, _ = dt.decide(clo[1], {2: {'<variant>': 1, 'Some.0': (m, M)}, 3: x}, _ord_atom({}))
+                got = tuple(v.get('0', ())) if isinstance(v, dict) else None
+                if got != (min(m, x), max(M, x)):
+                    bad.append('state (%d, %d), key %d gives %s' % (m, M, x, _pv(v)))
+            form = 'fold(None, step)'
+        else:
+            # ---- loop form: (lo, hi) are loop-carried locals, initialised from the first key
+            hv = SymEx(rb, havoc_loops=True).run()
+            exits = [p for p in hv if p.end == 'return' and any(isinstance(y, tuple) and y and y[0] == 'loopvar' for y in subterms(p.ret))]
+            back = [p for p in hv if p.end == 'backedge']
+            if len(exits) != 1 or not back:
+                rep.indet('E23.G3: range_of has neither a fold nor a single scanning loop (%d exits, %d iterations)' % (len(exits), len(back)))
+                return
+            r = strip(exits[0].ret)
+            if not (r[0] == 'call' and r[1].split('::')[-1] == 'new' and len(r[2]) == 2 and all(strip(x)[0] == 'loopvar' for x in r[2])):
+                rep.indet('E23.G3: range_of returns %s after its loop' % sk(exits[0].ret)[:120])
+                return
+            lo, hi = strip(r[2][0])[2], strip(r[2][1])[2]
+            # zero iterations: both ends are the first key
+            zero = [p for p in rets if sum(1 for e in p.calls() if e.name.endswith('Iterator::next')) == 2]
+            firsts = {sk(p.ret) for p in zero}
+            if len(zero) != 1:
+                rep.indet('E23.G3: %d zero-iteration paths through range_of' % len(zero))
+                return
+            z = strip(zero[0].ret)
+            za = [sk(x) for x in z[2]] if z[0] == 'call' and len(z[2]) == 2 else []
+            if not (len(za) == 2 and za[0] == za[1] and za[0].startswith('next(') and za[0].endswith('.Some.0')):
+                bad.append('a single key x gives %s, expected x ..= x' % sk(zero[0].ret)[:120])
+            inloop = set()
+            for info in find_loops(rb).values():
+                inloop |= info['blocks']
+            paths = [([(e.term, e.value, e.args) for e in p.branches() if e.bb in inloop], None, p) for p in back]
+            for (m, M, x) in GRID3:
+                env = {('loopvar', lo): m, ('loopvar', hi): M, 'item': x}
+                at = _ord_atom(env)
+                _, p = dt.decide_paths(paths, {}, at, what='the loop of range_of', want_ret=False)
+                got = tuple(dt.ev(p.mem[(('local', l), ())], {}, at) for l in (lo, hi))
+                if got != (min(m, x), max(M, x)):
+                    bad.append('state (%d, %d), key %d gives %s' % (m, M, x, got))
+            form = 'first key, then a loop over (min, max)'
+    except (Stuck, KeyError, TypeError) as ex:
+        rep.indet('E23.G3: range_of outside the recognised fragment: %s' % str(ex)[:160])
+        return
+    if bad:
+        rep.violation('E23.G3-support-range', inst, 'the scan is not (min, max): %s - a populated bidegree can fall outside the generated support and silently disappear from the table' % '; '.join(bad[:3]),
+                      where=rb.where())
+    else:
+        rep.ok('E23.G3-support-range', inst, '%s; %d states x keys folded' % (form, len(GRID3) + 1))
+
+
+def _pv(v):
+    if isinstance(v, dict):
+        return {k: x for k, x in v.items() if not k.startswith('<adt')}
+    return v
+
+
 def _g34(facts, rep):
     # ---- G3
-    rc = closures_of(facts, RNG)
-    got = set()
-    for k, b in rc.items():
-        rep.saw(b)
-        for p in SymEx(b).run():
-            if p.end == 'return':
-                got.add((sk(p.ret), tuple((sk(e.term), (1 if e.value == 1 else 0) if sk(e.term).startswith('discr(') else (0 if e.value == 0 else 1)) for e in p.branches())))
-    MIN, MAX, X = 'arg2.Some.0.0', 'arg2.Some.0.1', 'arg3'
-    want = {('Option::Some{0: (%s, %s)}' % (MIN, MAX), (('discr(arg2)', 1), ('lt(&%s, &%s)' % (X, MIN), 0), ('lt(&%s, &%s)' % (MAX, X), 0))),
-            ('Option::Some{0: (%s, %s)}' % (MIN, X), (('discr(arg2)', 1), ('lt(&%s, &%s)' % (X, MIN), 0), ('lt(&%s, &%s)' % (MAX, X), 1))),
-            ('Option::Some{0: (%s, %s)}' % (X, MAX), (('discr(arg2)', 1), ('lt(&%s, &%s)' % (X, MIN), 1))),
-            ('Option::Some{0: (%s, %s)}' % (X, X), (('discr(arg2)', 0),))}
-    inst = 'range_of|fold computes (min, max)'
-    if got == want:
-        rep.ok('E23.G3-support-range', inst, '4 arms')
-    elif not got:
-        rep.indet('E23.G3: range_of fold closure not found')
-    else:
-        # decide semantically on the 3 orderings x<min, min<=x<=max, x>max
-        bad = sorted(str(x)[:200] for x in got - want)
-        known = all(re.match(r'Option::Some\{0: \((arg2\.Some\.0\.[01]|arg3), (arg2\.Some\.0\.[01]|arg3)\)\}$', g[0]) for g in got)
-        if known:
-            rep.violation('E23.G3-support-range', inst, 'the fold is no longer (min, max): arms %s - a populated bidegree can fall outside the generated support and silently disappear from the table' % bad,
-                          where=facts.bodies[RNG].where() if RNG in facts.bodies else '')
-        else:
-            rep.indet('E23.G3: range_of fold outside the recognised fragment: %s' % bad)
+    _g3(facts, rep)
     # ---- G4
-    gcl = closures_of(facts, GG)
     gg = facts.bodies.get(GG)
     if gg is None:
         rep.indet('E23: KhComplex::gen_grid not found')
         return
     rep.saw(gg)
+    from symex import private_helper, apply_closure
     piece = pred = None
-    for k, b in gcl.items():
-        for p in SymEx(b).run():
-            if p.end != 'return':
-                continue
-            s = re.sub(r'\^_ref__', '^', sk(p.ret))
-            if s.startswith('from_raw_gens('):
-                piece = s
-            if 'q_deg(' in s:
-                pred = s
     inst = 'KhComplex::gen_grid|x in piece (i, j) iff x in gens(C_i) and q_deg(x) = j'
-    ok = piece == 'from_raw_gens(cloned(filter(iter(raw_gens(index(*arg1.^self, arg2.0))), closure<{closure#0}>)))' and pred in ('Eq(q_deg(*arg2), **arg1.^j)', 'Eq(**arg1.^j, q_deg(*arg2))')
+    try:
+        gens = [e for p in SymEx(gg, havoc_loops=True, inline=private_helper()).run() if p.end == 'return' for e in p.calls('generate')]
+        clo = strip(gens[0].args[1]) if gens else None
+        if clo is not None and clo[0] == 'closure':
+            for q in apply_closure(clo, [('idx',)], inline=private_helper()) or []:
+                if q.end != 'return':
+                    continue
+                s_ = re.sub(r"\('idx',\)", 'IDX', sk(q.ret))
+                if s_.startswith('from_raw_gens('):
+                    piece = re.sub(r'closure<[^>]*>', 'PRED', s_)
+                    for y in subterms(q.ret):
+                        if isinstance(y, tuple) and y and y[0] == 'closure':
+                            for r_ in apply_closure(y, [('ref', ('item',))]) or []:
+                                if r_.end == 'return':
+                                    pred = re.sub(r"\('idx',\)", 'IDX', sk(r_.ret)).replace("('item',)", 'ITEM')
+    except Exception as ex:
+        rep.indet('E23.G4: gen_grid: %s' % str(ex)[:120])
+        return
+    ok = piece in ('from_raw_gens(cloned(filter(iter(raw_gens(index(arg1, IDX.0))), PRED)))', 'from_raw_gens(copied(filter(iter(raw_gens(index(arg1, IDX.0))), PRED)))') and \
+        pred in ('Eq(q_deg(ITEM), IDX.1)', 'Eq(IDX.1, q_deg(ITEM))')
     if ok:
         rep.ok('E23.G4-complex-pieces', inst, 'filter(q_deg(x) == j) over raw_gens(C_i)')
     elif piece is None or pred is None:
@@ -216,6 +335,60 @@ def _g34(facts, rep):
     else:
         rep.violation('E23.G4-complex-pieces', inst, 'the piece is %s with predicate %s' % (piece[:200], pred), where=gg.where())
     check_support(facts, rep)
+
+
+def _support_by_loops(gg):
+    """the support handed to generate is a vector filled by two nested loops, one over h_range, one over q_range step 2,
+    pushing (i, j) unconditionally"""
+    try:
+        paths = SymEx(gg, havoc_loops=True).run()
+    except Exception:
+        return False
+    rets = [p for p in paths if p.end == 'return']
+    back = [p for p in paths if p.end == 'backedge']
+    if len(rets) != 1 or not back:
+        return False
+    gens = rets[0].calls('generate')
+    if len(gens) != 1:
+        return False
+    sup = strip(gens[0].args[0])
+    if sup[0] != 'loopvar':
+        return False
+    L = sup[2]
+    entry = {}
+    for p in paths:
+        for (fid, bb, l), v in p.state.loop_entry.items():
+            if fid == 0 and strip(v)[0] != 'loopvar':
+                entry.setdefault(l, set()).add(sk(v))
+    if entry.get(L) != {'new()'}:
+        return False
+    pushes = set()
+    for p in paths:
+        for e in p.events:
+            if e.kind == 'branch':
+                t = strip(e.term)
+                if not (t[0] == 'discr' and strip(t[1])[0] == 'call' and strip(t[1])[1].endswith('Iterator::next')):
+                    return False
+            if e.kind == 'call' and e.args and e.args[0] == ('mref', (('local', L), ())):
+                if e.name.split('::')[-1] != 'push':
+                    return False
+                v = strip(e.args[1])
+                if not (v[0] == 'adt' and v[2] == 'isize2' and len(v[4]) == 2):
+                    return False
+                src = []
+                for c in v[4]:
+                    c = strip(c)
+                    if not (c[0] == 'field' and c[2] == 'Some.0' and c[1][0] == 'call' and c[1][1].endswith('Iterator::next') and c[1][2][0][0] == 'mref' and c[1][2][0][1][0][0] == 'local'):
+                        return False
+                    src.append(entry.get(c[1][2][0][1][0][1]))
+                pushes.add(tuple(frozenset(x) if x else None for x in src))
+    want_i = frozenset({'into_iter(h_range(arg1))'})
+    want_j = (frozenset({'into_iter(step_by(clone(&q_range(arg1)), 2))'}), frozenset({'into_iter(step_by(q_range(arg1), 2))'}))
+    # a push on some path of the inner iteration, and nothing but iterator tests on any path: every (i, j) is pushed
+    inner_pushed = all(any(e.kind == 'call' and e.name.split('::')[-1] == 'push' for e in p.events) for p in back
+                       if sum(1 for e in p.branches() if e.value == 1) >= 2)
+    return len(pushes) == 1 and inner_pushed and all(a == want_i and b in want_j for a, b in pushes)
+
 
 
 def check_support(facts, rep):
@@ -265,5 +438,7 @@ def check_support(facts, rep):
                 stepped = True
     if g == ['generate(map(flat_map(h_range(arg1), closure<{closure#2}>), closure<{closure#0}>), closure<{closure#1}>)'] and cl2 == ['map(clone(*arg1.^q_range), closure<{closure#0}>)'] and stepped:
         rep.ok('E23.G5-support-covers-all', inst, 'cartesian!(h_range, q_range.step_by(2))')
+    elif _support_by_loops(need['gen_grid']):
+        rep.ok('E23.G5-support-covers-all', inst, 'for i in h_range { for j in q_range.step_by(2) { support.push((i, j)) } }')
     else:
         rep.indet('E23.G5: gen_grid support outside the recognised fragment: %s / %s / step_by(q_range, 2): %s' % (g, cl2, stepped))
